@@ -22,6 +22,13 @@ RefIsCrystal(atoms, basis, dd, copies) ==
     ELSE IF \E a \in 1..n : ~\E b \in 1..nb : Congr(atoms[a], basis[b], dd) THEN "reference_atom_is_not_an_atom_of_the_perfect_crystal"
     ELSE IF \E b \in 1..nb : Cardinality({a \in 1..n : Congr(atoms[a], basis[b], dd)}) # copies THEN "reference_crystal_basis_not_represented_equally"
     ELSE "ok"
+\* boundary: re-typed exactly outside the region (atoms within r.band of the surface are exempt); r.dist = signed distance to the region surface, > 0 outside
+VerdictBoundary(r) ==
+    LET n == Len(r.dist) IN
+    IF \E a \in 1..n : Abs(r.dist[a]) > r.band /\ (r.retyped[a] # (r.dist[a] > 0)) THEN "boundary_atoms_are_not_those_outside_the_region"
+    ELSE IF \E a \in 1..n : ~r.retyped[a] /\ r.dtype[a] # r.btype[a] THEN "atom_type_changed_inside_the_region"
+    ELSE IF \E a \in 1..n : r.retyped[a] /\ r.dtype[a] # r.btype[a] + r.ntypes THEN "boundary_atom_type_is_not_shifted_by_the_number_of_types"
+    ELSE "ok"
 VerdictMonopole(r) ==
     LET n == Len(r.res)  ref == RefIsCrystal(r.ref, r.basis, r.dd, r.copies) IN
     IF ~r.ongrid THEN "reference_atom_off_the_lattice_grid"
@@ -32,11 +39,7 @@ VerdictMonopole(r) ==
     ELSE IF \E a \in 1..n : \E i \in 1..3 : i # r.line /\ ~CloseI(r.res[a][i], 0, r.tol) THEN "atom_not_displaced_by_the_elastic_solution"
     ELSE IF \E a \in 1..n : ~CloseI(r.res[a][r.line] - r.period * ((2 * r.res[a][r.line] + r.period) \div (2 * r.period)), 0, r.tol)
          THEN "atom_not_displaced_by_the_elastic_solution_along_the_line"
-    \* boundary: re-typed exactly outside the region (atoms within r.band of the surface are exempt); r.dist = signed distance to the region surface, > 0 outside
-    ELSE IF \E a \in 1..n : Abs(r.dist[a]) > r.band /\ (r.retyped[a] # (r.dist[a] > 0)) THEN "boundary_atoms_are_not_those_outside_the_region"
-    ELSE IF \E a \in 1..n : ~r.retyped[a] /\ r.dtype[a] # r.btype[a] THEN "atom_type_changed_inside_the_region"
-    ELSE IF \E a \in 1..n : r.retyped[a] /\ r.dtype[a] # r.btype[a] + r.ntypes THEN "boundary_atom_type_is_not_shifted_by_the_number_of_types"
-    ELSE "ok"
+    ELSE VerdictBoundary(r)
 \* periodic array: rows4 / newrows4 = 4 x cell rows in lattice coordinates before / after (integers)
 VerdictArray(r) ==
     LET dOld == Abs(Det3(r.rows4))  dNew == Abs(Det3(r.newrows4))  n == Len(r.oldid) IN
@@ -54,5 +57,5 @@ VerdictDisreg(r) ==
     IF ~CloseI(r.total, r.s, r.tail) THEN "disregistry_does_not_accumulate_to_one_burgers_vector"
     ELSE IF r.perp > r.tail THEN "disregistry_has_a_component_that_is_not_the_burgers_vector"
     ELSE "ok"
-VerdictDisl(r) == CASE r.ev = "monopole" -> VerdictMonopole(r) [] r.ev = "array" -> VerdictArray(r) [] r.ev = "disreg" -> VerdictDisreg(r) [] OTHER -> "unknown_event"
+VerdictDisl(r) == CASE r.ev = "monopole" -> VerdictMonopole(r) [] r.ev = "array" -> VerdictArray(r) [] r.ev = "disreg" -> VerdictDisreg(r) [] r.ev = "boundary" -> VerdictBoundary(r) [] OTHER -> "unknown_event"
 ====
